@@ -284,7 +284,7 @@ func runC15(c *Ctx) {
 					if tv, ok := info.Types[cl]; ok && eng.TypeName(tv.Type) == "dht/dual.DHT" && len(cl.Elts) == 2 {
 						if kv0, isKV := cl.Elts[0].(*ast.KeyValueExpr); isKV {
 							kv1 := cl.Elts[1].(*ast.KeyValueExpr)
-							vals := map[string]ast.Expr{kv0.Key.(*ast.Ident).Name: kv0.Value, kv1.Key.(*ast.Ident).Name: kv1.Value}
+							vals := map[string]ast.Expr{eng.NameOf(kv0.Key.(*ast.Ident)): kv0.Value, eng.NameOf(kv1.Key.(*ast.Ident)): kv1.Value}
 							okFields = eng.IsObj(info, vals["WAN"], wanObj) && eng.IsObj(info, vals["LAN"], lanObj)
 						} else {
 							okFields = eng.IsObj(info, cl.Elts[0], wanObj) && eng.IsObj(info, cl.Elts[1], lanObj)
